@@ -169,6 +169,8 @@ class VCGen:
             return a * b
         if self._rmul is None:
             self._rmul = z3.Function('rmul', R, R, R)
+            x_, y_ = z3.Reals('x!rm y!rm')
+            self.assumes.append(z3.ForAll([x_, y_], self._rmul(x_, y_) == self._rmul(y_, x_), patterns=[self._rmul(x_, y_)]))   # commutative
         t = self._rmul(a, b)
         # the arithmetic facts kept about products: a square is non-negative; a product with a zero factor is zero
         key = t.get_id()
@@ -177,6 +179,18 @@ class VCGen:
             if a.eq(b):
                 self.assumes.append(t >= 0)
         return t
+
+    def rdiv(self, a, b):
+        """real quotient; with the kernel option uf_mul, a quotient by a non-constant term is an uninterpreted function
+        application (only congruence is known about it)"""
+        if not getattr(self, 'uf_mul', False):
+            return a / b
+        sb = z3.simplify(b)
+        if z3.is_rational_value(sb) or z3.is_int_value(sb):
+            return a / b
+        if getattr(self, '_rdiv', None) is None:
+            self._rdiv = z3.Function('rdiv', R, R, R)
+        return self._rdiv(a, b)
 
     # ------------------------------------------------------------------ obligations
     def oblige(self, st, kind, goal, node=None, note='', text=''):
@@ -341,7 +355,7 @@ class VCGen:
                 # result is then an ARBITRARY double (any real or NaN): everything downstream must hold for any value.
                 hv = fresh('fdivz', R); hn = fresh('fdivz!n', B)
                 self.trusted.add('x/0.0 (+-inf) is modelled as an arbitrary double, not as an infinity')
-                return D(z3.Or(nan, z3.And(b.val == 0, z3.Or(a.val == 0, hn))), z3.If(b.val == 0, hv, a.val / b.val))
+                return D(z3.Or(nan, z3.And(b.val == 0, z3.Or(a.val == 0, hn))), z3.If(b.val == 0, hv, self.rdiv(a.val, b.val)))
             cmp = {'<': lambda x, y: x < y, '>': lambda x, y: x > y, '<=': lambda x, y: x <= y,
                    '>=': lambda x, y: x >= y, '==': lambda x, y: x == y}
             if op in cmp:
